@@ -33,12 +33,13 @@ def build_models(dsc):
     class Ext(nn.Module):
         def __init__(self):
             super().__init__()
-            self.c = nn.Conv2d(dsc["C"], dsc["cout"], 3, padding=1)
+            # "silent": bias-free convolution and no offset, so an all-black crop has an all-zero activation
+            self.c = nn.Conv2d(dsc["C"], dsc["cout"], 3, padding=1, bias=not dsc.get("silent"))
             self.calls = []
 
         def forward(self, x):
             self.calls.append(int(x.shape[0]))
-            a = torch.relu(self.c(x)) + 0.05
+            a = torch.relu(self.c(x)) + (0.0 if dsc.get("silent") else 0.05)
             return a if spatial else a.mean((2, 3))
 
     class Head(nn.Module):
@@ -97,6 +98,17 @@ def run_case(ctx, dsc):
     # the concept bank is not (numerically) rank one
     low = rng.integers(0, 17, size=(N, C, (H + 2) // 3, (W + 2) // 3)) / 16.0
     imgs_np = np.kron(low, np.ones((1, 1, 3, 3)))[:, :, :H, :W].astype(np.float32)
+    if dsc.get("silent"):
+        # letterbox band: the first row (or column) of crops is entirely black (silent crops); the other crops are not
+        stride = (p * 4) // 5
+        if stride >= 1 and (H - p) // stride >= 1:
+            imgs_np[:, :, :p, :] = 0.0
+            ctx.count("silent_crop_cases", "rows")
+        elif stride >= 1 and (W - p) // stride >= 1:
+            imgs_np[:, :, :, :p] = 0.0
+            ctx.count("silent_crop_cases", "cols")
+        else:
+            ctx.count("silent_crop_cases", "image-too-small")
     imgs = torch.tensor(imgs_np)
     w0 = rng.integers(-8, 9, size=(K, cout)) / 4.0
     b0 = rng.integers(-4, 5, size=K) / 4.0
@@ -252,6 +264,14 @@ def run_case(ctx, dsc):
         ctx.check_prop("importance-affine-invariant", dev <= 2e-3 * scale, dsc,
                        {"alpha": alpha, "beta": beta, "maxdev": dev, "imp": np.asarray(imp).tolist(),
                         "imp_affine": np.asarray(imp_a).tolist()})
+    # ... at every scale of the logits (powers of two keep float32 exact; no offset, which would swamp tiny logits)
+    alpha2 = float(2.0 ** int(rng.choice([-14, -18, 12])))
+    cr.latent_to_logit_model = Head(wh, b0, q0, alpha=alpha2, beta=0.0).eval()
+    ok, imp_s = ctx.impl_call(dsc, importance)
+    if ok:
+        dev = maxdev(imp_s, imp)
+        ctx.check_prop("importance-scale-invariant", dev <= 2e-3 * scale, dsc,
+                       {"alpha": alpha2, "maxdev": dev, "imp": np.asarray(imp).tolist(), "imp_scaled": np.asarray(imp_s).tolist()})
     # batch size independence of the importances
     cr.latent_to_logit_model = head
     cr.batch_size = bs2
@@ -338,6 +358,8 @@ def gen_cases(ctx):
                       "nb_design": int(rng.choice([4, 8, 16])), "head": head,
                       "ignore": int(rng.integers(r)) if head == "lin" and rng.random() < 0.7 else None,
                       "local": bool(rng.random() < 0.3), "case_seed": int(rng.integers(1 << 31))})
+        if i % 6 == 5:
+            cases[-1]["silent"] = True
     return cases
 
 
